@@ -23,6 +23,7 @@ limitations under the License.
 #include <functional>
 #include <iomanip>
 #include <limits>
+#include <locale>
 #include <numeric>
 #include <set>
 #include <sstream>
@@ -130,6 +131,8 @@ std::string convertToString(double value, bool fullPrecision)
         return "nan";
     }
     std::ostringstream strs;
+    // Numbers are written for CellML documents and generated code: never follow the global locale.
+    strs.imbue(std::locale::classic());
     if (fullPrecision) {
         strs << std::setprecision(std::numeric_limits<double>::digits10) << value;
     } else {
@@ -174,6 +177,7 @@ int convertPrefixToInt(const std::string &in, bool *ok)
 std::string convertToString(size_t value)
 {
     std::ostringstream strs;
+    strs.imbue(std::locale::classic());
     strs << value;
     return strs.str();
 }
@@ -181,6 +185,7 @@ std::string convertToString(size_t value)
 std::string convertToString(int value)
 {
     std::ostringstream strs;
+    strs.imbue(std::locale::classic());
     strs << value;
     return strs.str();
 }
